@@ -108,6 +108,10 @@ def main():
     base_hwm = vm("VmHWM")
     if cap:
         resource.setrlimit(resource.RLIMIT_AS, (cap, cap))
+    if spec.get("rlimit_data"):
+        # a finite soft data-segment limit, as under `ulimit -d`: the library derives its chunk size from it
+        hard = resource.getrlimit(resource.RLIMIT_DATA)[1]
+        resource.setrlimit(resource.RLIMIT_DATA, (int(spec["rlimit_data"]), hard))
     t0 = time.time()
     res = {"op": spec["op"], "ok": True}
     try:
@@ -117,7 +121,11 @@ def main():
         apath = spec["archive"]
         members = spec["members"]  # list of [name, kind, size, seed]
         if op in ("writef", "write"):
-            with py7zr.SevenZipFile(apath, "w", filters=filters, password=pw) as z:
+            if spec.get("append"):
+                # the big member is added in a second session, to an archive that already exists
+                with py7zr.SevenZipFile(apath, "w", filters=filters, password=pw) as z:
+                    z.writestr(b"first session", "seed.txt")
+            with py7zr.SevenZipFile(apath, "a" if spec.get("append") else "w", filters=filters, password=pw) as z:
                 for name, kind, size, seed in members:
                     if op == "writef" or size < (1 << 20):
                         z.writef(Source(kind, size, seed), name)
